@@ -680,6 +680,41 @@ theorem localOfList_nodup : ∀ (fs : List Callable) (ps : List (String × Calla
             simpa [FMap.keys, List.map_append, List.append_assoc] using hnd)
           simpa [List.append_assoc] using this
 
+/-- lookup in the dict a LIST of callables is turned into: the LAST callable carrying that `__name__` -/
+theorem localOfList_get? : ∀ (fs : List Callable) (acc l : FMap) (n : String),
+    localOfList fs acc = .ok l →
+    l.get? n = (match fs.reverse.find? (fun c => c.pyName == some n) with
+                | some c => some c
+                | none => acc.get? n)
+  | [], acc, l, n, h => by
+      simp [localOfList] at h; subst h; simp
+  | f :: fs, acc, l, n, h => by
+      simp only [localOfList] at h
+      cases hn : f.pyName with
+      | none => simp [hn] at h
+      | some m =>
+        simp only [hn] at h
+        have ih := localOfList_get? fs (acc.set m f) l n h
+        rw [ih, List.reverse_cons, List.find?_append]
+        cases hfind : fs.reverse.find? (fun c => c.pyName == some n) with
+        | some c => simp
+        | none =>
+          simp only [Option.none_or, List.find?_cons, List.find?_nil, hn, FMap.get?_set]
+          by_cases hmn : m = n
+          · subst hmn; simp
+          · have : (m == n) = false := by simpa using hmn
+            simp [hmn, this]
+
+theorem mapSites_replicate (d : Val → Val) (s : Val → Log) (v : Val) (hv : (d v).isErr = false) :
+    ∀ n : Nat, mapSites d s (List.replicate n v) = (List.replicate n (s v)).flatten
+  | 0 => rfl
+  | n + 1 => by simp [List.replicate_succ, mapSites, hv, mapSites_replicate d s v hv n]
+
+theorem allSites_replicate (s : Val → Log) (v : Val) :
+    ∀ n : Nat, allSites s (List.replicate n v) = (List.replicate n (s v)).flatten
+  | 0 => rfl
+  | n + 1 => by simp [List.replicate_succ, allSites, allSites_replicate s v n]
+
 /-! ### C02's outcome classes -/
 
 /-- the outcome class of C02 (`Cel.O`) a value belongs to -/
